@@ -27,6 +27,7 @@ ASSUMPTIONS = [
     "ref.doc (comment attachment convention, source order) is the specification; validated against the repository's _unittest_comments convention",
     "whitespace-only lines are empty lines with trailing blanks (C03 lists trailing blanks as irrelevant formatting)",
     "formatting inside comments and string literals is content, not formatting, and is not varied",
+    "a bare '#' line is explored only as a continuation of a non-empty comment block (an empty first line of a block is dropped by the implementation; the property does not say)",
     "bodies longer than the tier bound and attribute types beyond {uint8, void3, nested composite} are outside the bound",
 ]
 
@@ -34,8 +35,8 @@ ROOT = "rns"
 DEP_FILES = {"rns/Dep.1.0.dsdl": "@sealed\n"}
 
 # line alphabet: one symbol per branch of the flush logic
-SYMS_FULL = ["F", "F#", "K", "C", "E", "P", "K#", "Kx", "A", "A#", "R", "D", "Kf"]
-SYMS_SMALL = ["F", "F#", "K", "C", "E", "Kx"]
+SYMS_FULL = ["F", "F#", "K", "C", "E", "P", "K#", "Kx", "A", "A#", "R", "D", "Kf", "C0"]
+SYMS_SMALL = ["F", "F#", "K", "C", "E", "Kx", "C0"]
 ATTR_SYMS = {"F", "F#", "K", "K#", "Kx", "P", "D", "Kf"}
 
 VARIANTS = [
@@ -84,6 +85,12 @@ def body_lines(syms: list[str], prefix: str) -> list[dict] | None:
             last_const = (name, last_const[1] + 1)
         elif s == "C":
             out.append({"stmt": None, "comment": c, "src": []})
+        elif s == "C0":
+            # a bare '#': an empty line INSIDE a comment block (paragraph break). Only explored as a continuation of a non-empty
+            # comment: whether an empty FIRST line of a block counts is not settled by the property (see ASSUMPTIONS)
+            if not out or not out[-1]["comment"]:
+                return None
+            out.append({"stmt": None, "comment": "", "src": []})
         elif s == "E":
             out.append({"stmt": None, "comment": None, "src": []})
         elif s in ("A", "A#"):
